@@ -573,3 +573,41 @@ def c11(chk):
     chk.assumptions += ["decision table: no trace direction; the table is complete inside the listed parameter shapes",
                         "a general-serialization token whose signatures disagree on b64 is decoded entry by entry (decoder-side "
                         "R9 is not stated by the property and not claimed)"]
+
+
+# ------------------------------------------------------------------------------------------------
+# C01 — JWS verification binds the signature to the bytes received
+# ------------------------------------------------------------------------------------------------
+
+def flip_jws_case(rows, k=3):
+    out = []
+    for r in rows:
+        if r["outcome"] == "verified":
+            r = json.loads(json.dumps(r))
+            r["outcome"] = "refused"
+            out.append(r)
+            if len(out) >= k:
+                break
+    if not out:
+        raise ToolError("canary: no verifying row")
+    return out
+
+
+@plan("C01")
+def c01(chk):
+    chk.rule = ("TLC explores the Decode;Verify machine of JwsVerify.tla from every received-token row: serialization x header "
+                "JSON shape (canonical / reordered with whitespace) x b64 absent/true/false x payload attached/empty/missing x "
+                "detached argument x alg in protected/unprotected/nowhere x alg pinned on the key absent/same/other x signature "
+                "over SI / over the re-encoded header / over another payload / garbage / wrong length x EdDSA/ES256/ES256K, "
+                "checking that 'verified' implies the verifier was called with exactly (protected alg, P.Y, caller's key). Every "
+                "row is built as real bytes with real signatures and run through the decoder with a recording verifier: signing "
+                "input, claims, alg source, verifier input and outcome are compared; for each of the 288 verifying rows every "
+                "single-bit flip (quick: every bit for EdDSA rows, every ~6th for ECDSA rows; thorough: all) of the protected "
+                "segment, payload (attached or detached) and signature must fail.")
+    r = chk.mc("JwsVerify", "JwsVerify_%s.cfg" % chk.tier, workers=4, timeout=600, heap="3g")
+    os.environ["VERIF_TIER"] = chk.tier
+    rep = chk.replay(r["cases_file"], timeout=7000)
+    chk.canary_cases(r["cases_file"], flip_jws_case)
+    chk.assumptions += ["Ed25519 / P-256 / secp256k1 primitives trusted: what is checked is which bytes, algorithm and key they are "
+                        "handed and that their verdict is honoured",
+                        "ECDSA (r, n-s) malleability is a property of the primitive, not a single-bit flip, and is not counted"]
